@@ -15,8 +15,8 @@
    - `grow_tree` is the common part of both `fit_weak_learner`s (root, breadth-first growth) for an
      arbitrary split search `find`; the theorems about it therefore hold for both trees, for every
      bootstrap weight vector `samples` and every choice of tried features (random forest, C06). *)
-From Coq Require Import List Arith Bool Reals Lra Floats Lia.
-From SC Require Import Base.Num C05.Model C05.ProofsGrow C05.ProofsReg C05.ProofsCls.
+From Coq Require Import List Arith ZArith Bool Reals Lra Floats Lia.
+From SC Require Import Base.Num C05.Model C05.ProofsGrow C05.ProofsReg C05.ProofsCls C05.ProofsSort.
 Import ListNotations.
 Local Open Scope nat_scope.
 
@@ -133,6 +133,64 @@ Theorem C05_labels_are_originals : forall T (O : Ops T) lg2 crit x y samples var
   c < length classes -> In (nth c classes dflt) y.
 Proof. exact @classifier_labels_original. Qed.
 
+(* argsort_perm_sorted, permutation half: whenever quick_argsort returns (it returns `None` only for an
+   empty vector, on stack overflow or — never observed — when a sentinel scan leaves the array), the
+   index vector is a permutation of 0..n-1; for every number type and every behaviour of the
+   comparisons (NaN included).  Axiom-free. *)
+Theorem C05_argsort_perm_partial : forall T (O : Ops T) (col : list T) idx,
+  quick_argsort O col = Some idx -> Permutation.Permutation idx (seq 0 (length col)).
+Proof. exact @quick_argsort_perm. Qed.
+
+(* The sortedness half is NOT proved (the invariant of the explicit-stack median-of-three quicksort
+   was not finished in the time available).  It is the hypothesis `sorted_order` of the two
+   leaf-value theorems; the correspondence check evaluates it (`orders_okb` in C05/Corr.v) on the
+   orders the model computes for every whole-tree case, and compares the model's argsort with the
+   implementation's on vectors with heavy ties. *)
+Definition C05_argsort_perm_sorted_full_statement : Prop :=
+  forall (col : list R) idx, quick_argsort ROps col = Some idx ->
+    Permutation.Permutation idx (seq 0 (length col)) /\
+    forall i j, i <= j < length col -> (nth (nth i idx 0%nat) col 0 <= nth (nth j idx 0%nat) col 0)%R.
+
+(* Extensions that are stated but not proved; they are covered by the failing-input search only
+   (brute-force best split at every internal node, completeness of the growth, x 2^k invariance). *)
+(* squared-error reduction of splitting the rows counted by s at (feature j, threshold t) *)
+Definition sse_gain (x : list (list R)) (y : list R) (s : list nat) (j : nat) (t : R) : R :=
+  let n := length x in
+  let mean (w : list nat) := (rsum (fun i => IZN (nth i w 0%nat) * nth i y 0) (seq 0 n) / IZN (sum_nat w))%R in
+  let sse (w : list nat) := rsum (fun i => IZN (nth i w 0%nat) * (nth i y 0 - mean w) * (nth i y 0 - mean w))%R (seq 0 n) in
+  (sse s - sse (true_part ROps x s j (Some t)) - sse (false_part ROps x s j (Some t)))%R.
+Definition admissible (x : list (list R)) (msl : nat) (s : list nat) (j : nat) (t : R) : Prop :=
+  msl <= sum_nat (true_part ROps x s j (Some t)) /\ msl <= sum_nat (false_part ROps x s j (Some t)) /\
+  0 < sum_nat (true_part ROps x s j (Some t)) /\ 0 < sum_nat (false_part ROps x s j (Some t)).
+Definition C05_regression_split_greedy_optimal_full_statement : Prop :=
+  forall x y samples order md msl mss nodes d,
+    length y = length x -> length samples = length x ->
+    (forall j, j < length (hd [] x) -> sorted_order x j (nth j order [])) ->
+    fit_regressor_with_order ROps x y samples (fun _ => seq 0 (length (hd [] x))) order md msl mss = Some (nodes, d) ->
+    exists G D, tree_consistent ROps 0%R x msl (reg_out_ok x y) samples nodes G D /\
+      forall n, n < length nodes -> leafb (nth n nodes (dnode 0%R)) = false ->
+        forall t0, split_value (nth n nodes (dnode 0%R)) = Some t0 ->
+          admissible x msl (G n) (split_feature (nth n nodes (dnode 0%R))) t0 /\
+          forall j t, j < length (hd [] x) -> admissible x msl (G n) j t ->
+            (sse_gain x y (G n) j t <= sse_gain x y (G n) (split_feature (nth n nodes (dnode 0%R))) t0)%R.
+Definition C05_growth_complete_without_depth_limit_full_statement : Prop :=
+  forall x y samples order msl mss nodes d,
+    length y = length x -> length samples = length x ->
+    (forall j, j < length (hd [] x) -> sorted_order x j (nth j order [])) ->
+    fit_regressor_with_order ROps x y samples (fun _ => seq 0 (length (hd [] x))) order None msl mss = Some (nodes, d) ->
+    length nodes < 65535 ->
+    exists G D, tree_consistent ROps 0%R x msl (reg_out_ok x y) samples nodes G D /\
+      forall n, n < length nodes -> leafb (nth n nodes (dnode 0%R)) = true -> mss < sum_nat (G n) ->
+        forall j t, j < length (hd [] x) -> ~ admissible x msl (G n) j t.
+Definition C05_scale_invariance_pow2_full_statement : Prop :=
+  forall (x : list (list float)) (y : list float) md msl mss (e : Z),
+    (0 < e)%Z ->
+    let x' := map (map (fun v => PrimFloat.mul v (Z.ldexp 1%float e))) x in
+    option_map (fun r => map (fun nd => (output nd, split_feature nd, true_child nd, false_child nd)) (fst r))
+               (fit_regressor FOps x' y md msl mss) =
+    option_map (fun r => map (fun nd => (output nd, split_feature nd, true_child nd, false_child nd)) (fst r))
+               (fit_regressor FOps x y md msl mss).
+
 (* ---- the hypotheses are satisfiable (binary64 instance, evaluated by the kernel) ---- *)
 Example C05_regressor_instance :
   exists nodes d,
@@ -148,6 +206,10 @@ Example C05_classifier_instance :
 Proof.
   eexists. eexists. eexists. split; [vm_compute; reflexivity|]. repeat split; vm_compute; reflexivity.
 Qed.
+
+Example C05_argsort_instance :
+  quick_argsort FOps [3; 1; 2; 1; 5; 0; 4; 1; 9; 2]%float = Some [5; 7; 3; 1; 9; 2; 0; 6; 4; 8].
+Proof. vm_compute. reflexivity. Qed.
 
 Example C05_sorted_order_instance : sorted_order [[3];[1];[2]]%R 0 [1; 2; 0].
 Proof.
